@@ -63,6 +63,15 @@ func (e *Engine) eval(st *State, x ast.Expr) []valOut {
 		for _, b := range e.eval(st, x.X) {
 			v := e.newVal(KSlice, e.Info.TypeOf(x), x.Pos())
 			v.Src = b.v
+			// Path records whether the slice expression covers its whole operand (s[:], s[0:]) or only a part of it
+			v.Path = "part"
+			if x.High == nil && x.Max == nil {
+				if x.Low == nil {
+					v.Path = "full"
+				} else if tv, ok := e.Info.Types[x.Low]; ok && tv.Value != nil && tv.Value.ExactString() == "0" {
+					v.Path = "full"
+				}
+			}
 			out = append(out, valOut{b.st, v})
 		}
 		return out
